@@ -180,7 +180,14 @@ class MetadataManager:
                     )
 
                 # PHASE 2: Prepare new version
-                new_metadata.last_updated_ms = int(datetime.now().timestamp() * 1000)
+                # The OCC stamp must STRICTLY advance past the version we validated
+                # against: two commits inside one clock tick (or a clock stepping
+                # back) would otherwise leave last_updated_ms unchanged, and a
+                # stale-base metadata-only commit would pass validation.
+                now_ms = int(datetime.now().timestamp() * 1000)
+                new_metadata.last_updated_ms = (
+                    max(now_ms, current.last_updated_ms + 1) if current else now_ms
+                )
 
                 # Read current version (and, on CAS backends, the hint's ETag so
                 # the commit point below can be a true compare-and-swap).
